@@ -82,3 +82,20 @@ void run_case(ByteSource& s, CaseInfo& ci) {
   }
 }
 void enumerate(const Emit&, const std::string&) {}
+
+// fixed finding ba8a2de: NaN from the closed-form SU(3) solver for zero / diagonal / projector / identity-multiple inputs
+void regressions() {
+  std::vector<std::vector<double>> inputs;
+  inputs.push_back(std::vector<double>(9, 0.0));
+  { std::vector<double> c(9, 0.0); c[0] = 2.5; inputs.push_back(c); }
+  { std::vector<double> c(9, 0.0); c[4] = 0.3; c[8] = -0.7; c[0] = 0.1; inputs.push_back(c); }
+  inputs.push_back(comps(SU_vector::Projector(3, 1)));
+  { std::vector<double> c(9, 0.0); c[1] = 1.0; inputs.push_back(c); }
+  for (auto& c : inputs) for (bool order : {true, false}) {
+    SU_vector v = make_vec(c, 3);
+    auto es = v.GetEigenSystem(order);
+    Mat M = toM(c, 3), V = fromGsl(es.second.get()), D(3);
+    for (int i = 0; i < 3; i++) { double l = gsl_vector_get(es.first.get(), i); CHECK(std::isfinite(l), "C12|GetEigenSystem|nonfinite|dim=3", "regression: eigenvalue %d of %s", i, vec_str(c).c_str()); D.a[i][i] = cld(l, 0); }
+    CHECK(all_finite(V) && frob(M * V - V * D) <= 1e-12L * frob(M) + TINY && unitarity_defect(V) <= 1e-12L, "C12|GetEigenSystem|nonfinite|dim=3", "regression: invalid decomposition of %s", vec_str(c).c_str());
+  }
+}
